@@ -231,6 +231,16 @@ def run(prop, tier):
                       what='pool trace %d line %d fails %s' % (x['tid'], x['k'], x['clause']),
                       replay={'pipeline': 'pools', 'ops': x['scenario'].get('ops'), 'kind': x['scenario'].get('kind'),
                               'seed': x['scenario'].get('seed'), 'line': x['k']})
+    if prop == 'C15':
+        # work-order and schedule records: clauses C15.* of MaintTrace.tla and SchedTrace.tla
+        from . import p_maint, p_sched
+        for comp in (p_maint.COMP, p_sched.COMP):
+            cres = comp.result(tier)
+            for x in cres['violations']:
+                if x['clause'].startswith('C15.'):
+                    v.add(key='C15:%s' % x['clause'].split('.', 1)[1], clause=x['clause'],
+                          what='%s trace %d line %d fails %s' % (comp.name, x['tid'], x['k'], x['clause']),
+                          replay={'pipeline': comp.name, 'ops': x['scenario'].get('ops'), 'seed': x['scenario'].get('seed')})
     lines, rc = v.finish()
     mine = {c: n for c, n in res['clause_counts'].items() if c.startswith(prop + '.')}
     cov = {
@@ -262,7 +272,7 @@ def run(prop, tier):
 
 
 DESIGN = {'quick': dict(every=3, scale=1, timeout=40, sim=300, depth=120, group=4),
-          'thorough': dict(every=1, scale=2, timeout=600, sim=6000, depth=160, group=4)}
+          'thorough': dict(every=1, scale=1, timeout=240, sim=3000, depth=160, group=4)}
 
 
 def _design(tier):
